@@ -1,6 +1,6 @@
 SPECIFICATION Spec
 CONSTANTS
-  Workers = {w1, w2}
+  Workers = {w1, w2, w3}
   External = {}
   w1 = w1
   w2 = w2
@@ -10,8 +10,8 @@ CONSTANTS
   Subs = {s1, s2}
   RingCap = 2
   PoolCap = 1
-  NH = 4
+  NH = 3
   Bodies = {"plain", "yield", "sleep"}
-  Cfgs <- CfgThorough4b
+  Cfgs <- CfgQuick
 INVARIANTS NoFault RunsExactlyOnce CallReturnsAfterFinish AsyncDeletedOnceAfterRun RecordCopiedBeforeReuse DestructorWaits EveryWorkerGetsOneMarker NoStuck RingBounded RunningCounts
-SYMMETRY Sym
+SYMMETRY Sym3
